@@ -9,6 +9,10 @@ Ties (the REAL code vs Timesync.v evaluated by vm_compute inside coqc, exact rat
             _convert_cycle_timestamps picks (observed through its result)  -> Timesync.names_val
   * e2e:    single-rank FLEX files through Acelyzer(...).run() with --freq f and --freq k*f; exported (ts, dur) of
             every input slice (identified by args.uid)                    -> Timesync.e2e_val
+            f: powers of two, and SoC frequencies with a non-zero fractional part p/q MHz (q = 2,4,8; counters multiples
+            of p keep cycle/f exact) in every spelling --freq accepts (f, f.0, f:core, exponent); arbitrary decimal
+            frequencies (559.873, 1066.67) oracle-only.  The oracle reads the frequency of a run from the digits of the
+            spelling given to --freq (exact rational), never from the tool's parser.
 Oracle (written from the property text, independent of the model): for every device slice with a canonical name
 ("<prefix> DmaI|Cmpt Prep|Cmpt Exec|DmaO", or no phase keyword at all) dur == (TSb-TSa)/f for the pair of its phase,
 ts+dur == host ts+dur, dur > 0 iff TSa < TSb, finite, no exception when counters are monotone and the widened slice
@@ -56,7 +60,8 @@ MANIFEST = {
             "intermediate field) and end to end through Acelyzer with pairs of --freq values.",
     "note": "Print Assumptions: closed under the global context for every theorem. Trusted: Coq kernel + vm_compute; the "
             "hand-written model (incl. its copy of the keyword tables) is tied by differential testing only, on the "
-            "exact grid (f a power of two, host times multiples of 2^-10, integer counters) where every double "
+            "exact grid (f a power of two - end to end also f = p/q MHz, q | 8, with counters multiples of p, in every "
+            "spelling of --freq - host times multiples of 2^-10, integer counters) where every double "
             "operation of the code is exact; IEEE rounding itself is not modelled (an off-grid stream is checked by "
             "the oracle with relative tolerance 1e-9 only). Names whose phase keyword is not a suffix preceded by a "
             "space (e.g. 'xCmpt Prep', 'a DmaI b') are classified differently by the two stages: the model is "
@@ -242,7 +247,8 @@ def drive_e2e(case, workdir=None):
     try:
         p = write_file(case, d)
         outp = os.path.join(d, "out.json")
-        argv = ["-i", p, "-o", outp, "--freq", repr(case["freq"]), "-D", "0"] + list(case.get("opts", []))
+        argv = ["-i", p, "-o", outp, "--freq", case.get("spec") or repr(case["freq"]), "-D", "0"] \
+            + list(case.get("opts", []))
         with o, e_:
             try:
                 ace = Acelyzer(argv)
@@ -282,8 +288,54 @@ def drive(case, workdir=None):
         return drive_e2e(case, workdir)
     if k == "pair":
         return [drive_e2e(dict(case, freq=case["freq"]), workdir),
-                drive_e2e(dict(case, freq=case["freq"] * case["k"]), workdir)]
+                drive_e2e(dict(case, freq=case["freq"] * case["k"], spec=case.get("spec2")), workdir)]
     return drive_stage(case)
+
+
+# ---------------------------------------------------------------- the --freq option as the user spells it
+def spec_freq(spec):
+    """SoC frequency (MHz) a --freq spelling '<soc>[:<core>]' denotes, as an exact rational read from its decimal
+    digits (never through the tool's parser, never through a double)"""
+    return Fraction(spec.split(":")[0].strip())
+
+
+def run_freqs(case):
+    """exact SoC frequency of each run of an end-to-end case: from the spelling handed to --freq when there is one"""
+    f1 = spec_freq(case["spec"]) if case.get("spec") else enc.frac(case["freq"])
+    if case.get("kind") != "pair":
+        return [f1]
+    return [f1, spec_freq(case["spec2"]) if case.get("spec2") else enc.frac(case["freq"]) * enc.frac(case["k"])]
+
+
+def dec_str(fr):
+    """plain decimal digits of a rational with a finite decimal expansion: 1125 -> '1125', 1125/2 -> '562.5'"""
+    fr = Fraction(fr)
+    n = 0
+    while (fr * 10 ** n).denominator != 1:
+        n += 1
+        assert n < 40, fr
+    digits = str(int(fr * 10 ** n)).rjust(n + 1, "0")
+    return digits if n == 0 else digits[:-n] + "." + digits[-n:]
+
+
+CORES = ["1100", "1100.0", "800", "1000.5", "1100.25", "560"]
+
+
+def freq_spelling(r, fr):
+    """one of the spellings --freq accepts for the SoC frequency fr: 'f', 'f.0'/'f0' (trailing zeros), 'f:core',
+    and (rarely) leading zero / exponent form"""
+    s = dec_str(fr)
+    m = r.random()
+    if m < 0.3:
+        s = s + ("0" if "." in s else r.choice([".0", ".", ".00"]))
+    elif m < 0.36:
+        s = "0" + s
+    elif m < 0.42:
+        s = dec_str(Fraction(fr) / 100) + "e2"
+    if r.random() < 0.5:
+        s += ":" + r.choice(CORES)
+    assert spec_freq(s) == fr, (s, fr)
+    return s
 
 
 # ---------------------------------------------------------------- Coq encoding
@@ -422,13 +474,16 @@ def oracle(case, obs):
         if not is_device(e) and (final[2] is not None or final[3] is not None):
             fail({"kind": "host_slice_changed", "where": "args"}, "no ts_all/ts_dev", final[2:4])
         return fails
-    runs = [(case["freq"], obs)] if kind == "e2e" else [(case["freq"], obs[0]), (case["freq"] * case["k"], obs[1])]
+    # the frequency of a run is what the spelling given to --freq denotes (exact rational from its digits)
+    fqs = run_freqs(case)
+    runs = [(fqs[0], obs)] if kind == "e2e" else [(fqs[0], obs[0]), (fqs[1], obs[1])]
     all_ok = all(expect_ok(e, fr) for e in case["events"] if is_device(e) for fr, _ in runs)
-    for fr, ob in runs:
+    fsig = {"fractional_freq": fqs[0].denominator != 1}
+    for run_no, (fr, ob) in enumerate(runs):
         if isinstance(ob, enc.Err):
             if all_ok:
-                fail({"kind": "unexpected_exception", "type": ob.tag, "freq_is_scaled": fr != case["freq"]},
-                     "exit 0", repr(ob))
+                fail(dict(fsig, kind="unexpected_exception", type=ob.tag, freq_is_scaled=run_no == 1),
+                     "exit 0", {"error": repr(ob), "freq": case.get("spec2" if run_no else "spec")})
             return fails
         for e, slot in zip(case["events"], ob):
             if prep_dropped(case, e) and slot == "missing":
@@ -440,9 +495,10 @@ def oracle(case, obs):
                      {"uid": e["uid"], "got": slot})
                 continue
             for sig, exp, got in check_slice(e, fr, slot[0], slot[1], exact, "e2e"):
-                fail(dict(sig, freq_is_scaled=fr != case["freq"]), dict(exp, uid=e["uid"]) if isinstance(exp, dict) else exp, got)
+                fail(dict(sig, freq_is_scaled=run_no == 1, **fsig),
+                     dict(exp, uid=e["uid"]) if isinstance(exp, dict) else exp, got)
     if kind == "pair" and not fails:
-        k = enc.frac(case["k"])
+        k = fqs[1] / fqs[0]
         for e, s1, s2 in zip(case["events"], obs[0], obs[1]):
             if not (isinstance(s1, list) and isinstance(s2, list)):
                 if s1 != s2:
@@ -455,8 +511,19 @@ def oracle(case, obs):
                 continue
             if phase_pair(e["name"]) is None:
                 continue
+            if not exact:
+                # off the exact grid: the same statements up to a few double roundings of the operands' magnitude
+                cs = counters(e)
+                tol = Fraction(1, 10 ** 14) * max(1, abs(t1 + d1), abs(t2 + d2), Fraction(cs[4]) / min(fqs))
+                if abs(d2 * k - d1) > tol * max(1, k):
+                    fail(dict(fsig, kind="duration_not_scaled_by_1_over_k", phase=phase_pair(e["name"])[2]),
+                         {"dur": float(d1 / k)}, {"dur": s2[1], "uid": e["uid"]})
+                elif abs((t1 + d1) - (t2 + d2)) > tol or abs((t2 - t1) - (d1 - d2)) > 2 * tol:
+                    fail(dict(fsig, kind="scaling_moved_the_end", phase=phase_pair(e["name"])[2]),
+                         {"end": float(t1 + d1)}, {"end": float(t2 + d2), "uid": e["uid"]})
+                continue
             if d2 * k != d1:
-                fail({"kind": "duration_not_scaled_by_1_over_k", "phase": phase_pair(e["name"])[2]},
+                fail(dict(fsig, kind="duration_not_scaled_by_1_over_k", phase=phase_pair(e["name"])[2]),
                      {"dur": float(d1 / k)}, {"dur": s2[1], "uid": e["uid"]})
             elif t1 + d1 != t2 + d2 or t2 - t1 != d1 - d2:
                 fail({"kind": "scaling_moved_the_end", "phase": phase_pair(e["name"])[2]},
@@ -638,25 +705,48 @@ def gen_stage_single(r):
     return c
 
 
-def gen_e2e(r, pair=True):
-    """single-rank FLEX trace whose host times agree with its counters at frequency f; run with --freq f (and k*f)"""
-    f = r.choice(GRID_F)
+# SoC frequencies with a non-zero fractional part that are exact in binary (k/2, k/4, k/8 MHz)
+FRAC_F = ["562.5", "1066.5", "700.25", "281.25", "562.125", "999.75", "1100.5", "833.375", "559.875", "0.5", "12.75"]
+# ... and decimal ones that no double represents (the tool itself recommends such values: "use: --freq=559.873")
+DEC_F = ["559.873", "1066.67", "833.3", "1234.567", "562.5", "560.1", "999.999", "1000.001", "560", "1000"]
+
+
+def gen_e2e(r, pair=True, fmode="grid"):
+    """single-rank FLEX trace whose host times agree with its counters at frequency f; run with --freq f (and k*f).
+    fmode 'grid': f a power of two, spelled repr(f).
+    fmode 'frac': f = p/q MHz with q in {2,4,8}, p odd (non-zero fractional part), in every spelling --freq accepts; all
+                  counters are multiples of p, so cycle/f, cycle/(k*f) and every host time stay on the exact grid.
+    fmode 'dec':  any decimal f in every spelling; off the exact grid (oracle with exact rationals + tolerance)."""
+    u = 1                                  # counters are multiples of u
+    if fmode == "grid":
+        f = r.choice(GRID_F)
+    else:
+        fq = Fraction(r.choice(FRAC_F if fmode == "frac" else DEC_F))
+        f = float(fq)
+        if fmode == "frac":
+            u = fq.numerator
+            while u % 2 == 0:
+                u //= 2
+
+    def q_(x):                             # smallest multiple of u that is >= x
+        return -(-x // u) * u
+
     k = r.choice([2.0, 2.0, 4.0, 0.5, 0.25, 8.0])
     nk = r.randint(1, 5)
     H = grid_time(r, 1 << 12, 1 << 28)
-    cur = r.choice([0, r.randint(0, W - 1), r.randint(W, 4 * W)])
+    cur = q_(r.choice([0, r.randint(0, W - 1), r.randint(W, 4 * W)]))
     c0 = cur
     evs, uid = [], 0
     spread = r.random() < 0.5
     for ki in range(nk):
-        cur += r.randint(2000, 400000)
+        cur += q_(r.randint(2000, 400000))
         gaps = []
         for _ in range(4):
             g = r.random()
-            gaps.append(0 if g < 0.25 else r.randint(600, 60000))
+            gaps.append(0 if g < 0.25 else q_(r.randint(600, 60000)))
         if r.random() < 0.1:
-            gaps[r.randrange(4)] += r.randint(W // 16, W // 4)
-        gaps[2] = max(gaps[2], 600)        # frequency_stats divides by the Exec slice's host duration
+            gaps[r.randrange(4)] += q_(r.randint(W // 16, W // 4))
+        gaps[2] = max(gaps[2], q_(600))    # frequency_stats divides by the Exec slice's host duration
         cs = [cur]
         for g in gaps:
             cs.append(cs[-1] + g)
@@ -690,6 +780,11 @@ def gen_e2e(r, pair=True):
                               ["--disable_tb", "--keep_prep"], ["--drop_globals", "--keep_prep"], ["--drop_globals"]])}
     if "--keep_prep" in case["opts"] and r.random() < 0.3:
         case["torch_form"] = True       # prep slices are only removed for FLEX input: object form with --keep_prep only
+    if fmode != "grid":
+        case["fmode"] = fmode
+        case["grid"] = fmode == "frac"
+        case["spec"] = freq_spelling(r, fq)
+        case["spec2"] = freq_spelling(r, fq * Fraction(k))
     return case
 
 
@@ -790,10 +885,16 @@ def run(ctx):
     off_cases = [gen_stage_valid(r, on_grid=False) for _ in range(ctx.pick(400, 8000))]
     for _ in range(ctx.pick(100, 1000)):
         e2e_cases.append(gen_e2e(r, pair=True))
+    # SoC frequencies with a fractional part, in every spelling of --freq: exact (tied to the model as well) ...
+    for _ in range(ctx.pick(60, 600)):
+        e2e_cases.append(gen_e2e(r, pair=True, fmode="frac"))
+    # ... and arbitrary decimals (oracle only: exact rationals from the spelling, tolerance of a few double roundings)
+    for _ in range(ctx.pick(40, 400)):
+        e2e_cases.append(gen_e2e(r, pair=True, fmode="dec"))
 
     oracle_failures, seen, nontriv = [], set(), 0
     dist = {"stage_mode": {}, "phase": {}, "freq": {}, "errors": {}, "name_class": {}, "e2e_opts": {}, "e2e_k": {},
-            "e2e_events": {}, "equal_counters_in_unused_phase": 0, "zero_own_gap": 0, "straddles_2^32": 0,
+            "e2e_events": {}, "e2e_freq_kind": {}, "e2e_freq_spelling": {}, "equal_counters_in_unused_phase": 0, "zero_own_gap": 0, "straddles_2^32": 0,
             "starts_at_zero": 0, "host_only": 0, "malformed": 0, "off_grid_oracle_only": len(off_cases)}
 
     # --- stage tie
@@ -854,13 +955,21 @@ def run(ctx):
     t0 = time.time()
     for case in e2e_cases:
         obs = drive(case, ctx.work)
-        if case["kind"] == "pair":
-            eterms.append((coq_e2e(case, case["freq"]), safe_V(obs[0])))
-            eterms.append((coq_e2e(case, case["freq"] * case["k"]), safe_V(obs[1])))
+        fqs = run_freqs(case)
+        if not case.get("grid", True):
+            dist["e2e_off_grid_oracle_only"] = dist.get("e2e_off_grid_oracle_only", 0) + 1
+        elif case["kind"] == "pair":
+            eterms.append((coq_e2e(case, fqs[0]), safe_V(obs[0])))
+            eterms.append((coq_e2e(case, fqs[1]), safe_V(obs[1])))
             emeta += [case, case]
         else:
-            eterms.append((coq_e2e(case, case["freq"]), safe_V(obs)))
+            eterms.append((coq_e2e(case, fqs[0]), safe_V(obs)))
             emeta.append(case)
+        _bump(dist["e2e_freq_kind"], case.get("fmode", "grid") + ("/fractional" if fqs[0].denominator != 1 else "/integer"))
+        for sp in (case.get("spec"), case.get("spec2")):
+            if sp:
+                _bump(dist["e2e_freq_spelling"], ("f:core" if ":" in sp else "f") + ("/exp" if "e" in sp else "")
+                      + ("/fraction" if spec_freq(sp).denominator != 1 else "/integer-valued"))
         oracle_failures += oracle(case, obs)[:2]
         key = case_key(case)
         if key not in seen:
@@ -983,7 +1092,7 @@ def search(ctx, res, broken):
             if len(weak) > 3:
                 break
     while time.time() - t0 < budget * 1.5:
-        case = gen_e2e(r)
+        case = gen_e2e(r, fmode=r.choice(["grid", "frac", "dec"]))
         fs = oracle(case, drive(case, ctx.work))
         if fs:
             return confirm([shrink(fs[0])], [], ctx)
